@@ -58,6 +58,8 @@ PickB ==
 (* family C: composites; a shape is a sequence of parameters, i = position in the list (for unique names) *)
 Nm(pre, i) == CASE i = 1 -> pre \o "1" [] i = 2 -> pre \o "2" [] OTHER -> pre \o "3"
 Item == Struct(<<Value("a", -1, -1, SimpleA(U8, {IntV(1), IntV(2)}))>>, -1)
+\* an item that ends in a terminated string: shows whether the end-of-PDU flag is handled per item
+ItemT == Struct(<<Value("t", -1, -1, SimpleA(MinMax("ascii", 0, 3, "ZERO"), {TextV(<<65>>), TextV(<<65, 66, 67>>)}))>>, -1)
 Two == Struct(<<Value("a", -1, -1, Simple(U8)), Value("b", -1, -1, SimpleA(U8, {IntV(7)}))>>, -1)
 Shapes(i) == {
     <<Value(Nm("p", i), -1, -1, Simple(U8))>>,
@@ -70,6 +72,9 @@ Shapes(i) == {
     <<PhysConst(Nm("c", i), -1, Simple(U8), IntV(7))>>,
     <<Reserved(Nm("r", i), -1, -1, 8)>>,
     <<Reserved(Nm("r", i), -1, 4, 4)>>,
+    <<Reserved(Nm("r", i), -1, 4, 8)>>,                                          \* straddles a byte boundary
+    <<Value(Nm("p", i), -1, -1, [k |-> "eopfield", st |-> ItemT])>>,
+    <<Value(Nm("p", i), -1, -1, [k |-> "dlfield", st |-> ItemT, off |-> 1, cbp |-> 0, cbit |-> 0, cdct |-> U8])>>,
     <<Matching(Nm("m", i), -1, 1, 1)>>,
     <<Matching(Nm("m", i), -1, 1, 2)>>,
     <<Nrc(Nm("n", i), i, <<IntV(16), IntV(17)>>), Value(Nm("p", i), i, -1, SimpleA(U8, {IntV(16), IntV(17)}))>>,
